@@ -74,7 +74,8 @@ Inductive wkind :=
 | WRoot    (* Store::write / ArcStore::write on the store itself *)
 | WField   (* Subfield, AtIndex, AtKeyed, ArcField::from(store):
               WriteGuard(triggers_for_current_path, untracked parent) *)
-| WKeyed.  (* KeyedSubfield::write: the same, then update_keys(), then notify() of the field *)
+| WKeyed.  (* KeyedSubfield::write: update_keys() first, then the same triggers (since 4d4a6ab;
+              before: the triggers, update_keys(), then this and children of the field again) *)
 
 (** The triggers notified when the guard is dropped, in order.
     Root: the inner guard (ArcStore::writer = WriteGuard(children)) is dropped first, then
@@ -83,7 +84,7 @@ Definition notified (k : wkind) (p : path) : list trig :=
   match k with
   | WRoot => [Children []; This []; Children []]
   | WField => triggers_for_path p
-  | WKeyed => triggers_for_path p ++ [This p; Children p]
+  | WKeyed => triggers_for_path p
   end.
 
 (** does a write wake a reader of field [r] (an effect whose last run tracked [r])? *)
